@@ -61,6 +61,8 @@ def shards(tier, seed):
             out.append({'kind': 'sample', 'n': 3, 'm': 2, 'count': 60, 'budget_s': budget})
         for p in range(3):
             out.append({'kind': 'sample', 'n': 4, 'm': 1, 'count': 40, 'budget_s': budget})
+        for n_ in (4, 4, 5):
+            out.append({'kind': 'sample', 'n': n_, 'm': 1, 'count': 60 if n_ == 4 else 12, 'invariant': True, 'budget_s': budget})
         out.append({'kind': 'extras', 'count': 150, 'budget_s': budget})
         out.append({'kind': 'extras', 'count': 150, 'budget_s': budget})
     else:
@@ -71,6 +73,8 @@ def shards(tier, seed):
             out.append({'kind': 'space', 'n': [3], 'm': 2, 'part': p, 'parts': 24, 'budget_s': budget})
         for p in range(32):
             out.append({'kind': 'space', 'n': [4], 'm': 1, 'part': p, 'parts': 32, 'budget_s': budget})
+        for n_ in (4, 5, 5, 6):
+            out.append({'kind': 'sample', 'n': n_, 'm': 1, 'count': 3000 if n_ <= 5 else 150, 'invariant': True, 'budget_s': budget})
         for p in range(4):
             out.append({'kind': 'extras', 'count': 1500, 'budget_s': budget})
     return out
@@ -358,6 +362,54 @@ def drive(obj, n, m, rng, light=False):
     sels = [[j] for j in range(m)] + ([list(range(m))] if m > 1 else [])
     for s in sels:
         obj.find_negations_to_make_symmetric(s)
+
+
+def invariant_function(rng, n):
+    """A function that is invariant under a randomly chosen *subgroup* of the input permutations (rotations, a
+    reflection, a pair swap, products of these) and under nothing else in particular: a union of orbits of that group
+    on the assignments.  The hard negatives (and positives) of the symmetry / dependence queries live here."""
+    gens = []
+    kinds = rng.sample(['rotate', 'reflect', 'swap', 'swap2', 'random'], rng.randint(1, 2))
+    for kd in kinds:
+        p_ = list(range(n))
+        if kd == 'rotate':
+            r_ = rng.randint(1, max(1, n - 1))
+            p_ = [(i + r_) % n for i in range(n)]
+        elif kd == 'reflect':
+            p_ = list(reversed(p_))
+        elif kd in ('swap', 'swap2') and n >= 2:
+            a_, b_ = rng.sample(range(n), 2)
+            p_[a_], p_[b_] = p_[b_], p_[a_]
+        else:
+            rng.shuffle(p_)
+        gens.append(p_)
+    seen = {}
+    orbits = []
+    for k in range(1 << n):
+        if k in seen:
+            continue
+        orb = {k}
+        stack = [k]
+        while stack:
+            x = stack.pop()
+            bits = [inp(x, i, n) for i in range(n)]
+            for p_ in gens:
+                nb = [bits[p_[i]] for i in range(n)]
+                y = 0
+                for i in range(n):
+                    y = (y << 1) | (1 if nb[i] else 0)
+                if y not in orb:
+                    orb.add(y)
+                    stack.append(y)
+        for x in orb:
+            seen[x] = len(orbits)
+        orbits.append(orb)
+    row = 0
+    for orb in orbits:
+        if rng.random() < 0.5:
+            for x in orb:
+                row |= 1 << x
+    return row
 
 
 def repurpose(c, n, rows, rng):
@@ -716,7 +768,12 @@ def run_shard(spec, ctx):
             if ctx.out_of_time():
                 ctx.count('stopped_on_budget')
                 break
-            check_table([rng.getrandbits(1 << n) for _ in range(m)], n, ctx, rng)
+            if spec.get('invariant'):
+                rows = [invariant_function(rng, n) for _ in range(m)]
+                ctx.count('group_invariant_functions')
+            else:
+                rows = [rng.getrandbits(1 << n) for _ in range(m)]
+            check_table(rows, n, ctx, rng)
     else:
         for _ in range(spec['count']):
             if ctx.out_of_time():
